@@ -1,6 +1,7 @@
 package main
 
 import (
+	"bytes"
 	"fmt"
 
 	"github.com/bradenaw/juniper/container/xheap"
@@ -11,11 +12,72 @@ import (
 // ---------------------------------------------------------------------------------------------
 // Key / priority type configurations
 
-type pqCfg[K comparable, P comparable] struct {
+type pqCfg[K comparable, P any] struct {
 	name  string
 	keyOf func(j int) K // j = index in the universe
 	priOf func(raw int) P
 	rawOf func(p P) int
+	// eq is the deep equality the model uses to compare priorities (P need not be comparable
+	// with ==: slices, structs holding slices, interfaces holding slices).
+	eq func(a, b P) bool
+	// nativeCmp, if set, is handed to the queue as it is when the order is "asc" (it must then
+	// agree with the ascending order of the raw priorities), e.g. bytes.Compare.
+	nativeCmp func(a, b P) int
+}
+
+func eqOf[P comparable](a, b P) bool { return a == b }
+
+// wprio is an uncomparable priority: a struct holding a slice, ordered by n.
+type wprio struct {
+	w []int
+	n int
+}
+
+func intsEq(a, b []int) bool {
+	if len(a) != len(b) {
+		return false
+	}
+	for i := range a {
+		if a[i] != b[i] {
+			return false
+		}
+	}
+	return true
+}
+
+// anyRank / anyEq: priorities of dynamic type int or []int inside an interface, ordered by a rank.
+func anyRank(p any) int {
+	switch v := p.(type) {
+	case int:
+		return v
+	case []int:
+		if len(v) > 0 {
+			return v[0]
+		}
+	}
+	return 0
+}
+
+func anyEq(a, b any) bool {
+	switch x := a.(type) {
+	case nil:
+		return b == nil
+	case int:
+		y, ok := b.(int)
+		return ok && x == y
+	case []int:
+		y, ok := b.([]int)
+		return ok && intsEq(x, y)
+	}
+	return false
+}
+
+func bytesOf(raw int) []byte { v := raw + 20000; return []byte{byte(v >> 8), byte(v)} }
+func rawOfBytes(p []byte) int {
+	if len(p) != 2 {
+		return 0
+	}
+	return (int(p[0])<<8 | int(p[1])) - 20000
 }
 
 type kpair struct {
@@ -31,31 +93,51 @@ type prio struct {
 func runPQCase(c *vkit.Case, s *posScript) {
 	// configuration: order x constructor x key/priority types (rotated by index; drawn for the
 	// scripted group, whose index already encodes the script)
-	sel := c.Index % 40
+	sel := c.Index % 70
 	if s != nil {
-		sel = c.Rand.Intn(40)
+		sel = c.Rand.Intn(70)
 	}
 	switch sel / 10 {
 	case 0:
 		runPQ(c, s, sel, pqCfg[int, int]{"K=int,P=int",
 			func(j int) int { return j*7 - 21 },
 			func(raw int) int { return raw },
-			func(p int) int { return p }})
+			func(p int) int { return p }, eqOf[int], nil})
 	case 1:
 		runPQ(c, s, sel, pqCfg[string, int]{"K=string,P=int",
 			func(j int) string { return fmt.Sprintf("key-%02d", j) },
 			func(raw int) int { return raw },
-			func(p int) int { return p }})
+			func(p int) int { return p }, eqOf[int], nil})
 	case 2:
 		runPQ(c, s, sel, pqCfg[kpair, prio]{"K=struct,P=struct",
 			func(j int) kpair { return kpair{j % 3, fmt.Sprint("b", j/3)} },
 			func(raw int) prio { return prio{raw, fmt.Sprint("p", raw)} },
-			func(p prio) int { return p.V }})
-	default:
+			func(p prio) int { return p.V }, eqOf[prio], nil})
+	case 3:
 		runPQ(c, s, sel, pqCfg[int, float64]{"K=int,P=float64",
 			func(j int) int { return -j },
 			func(raw int) float64 { return float64(raw) * 0.5 },
-			func(p float64) int { return int(p * 2) }})
+			func(p float64) int { return int(p * 2) }, eqOf[float64], nil})
+	case 4: // uncomparable P: a slice, ordered by bytes.Compare itself when the order is ascending
+		runPQ(c, s, sel, pqCfg[string, []byte]{"K=string,P=[]byte",
+			func(j int) string { return fmt.Sprint("s", j) },
+			bytesOf, rawOfBytes, bytes.Equal, bytes.Compare})
+	case 5: // uncomparable P: a struct holding a slice, ordered by n
+		runPQ(c, s, sel, pqCfg[int, wprio]{"K=int,P=struct{w []int; n int}",
+			func(j int) int { return j + 1 },
+			func(raw int) wprio { return wprio{[]int{raw, 2 * raw}, raw} },
+			func(p wprio) int { return p.n },
+			func(a, b wprio) bool { return a.n == b.n && intsEq(a.w, b.w) }, nil})
+	default: // P = any holding ints and (uncomparable) slices, ordered by a rank function
+		runPQ(c, s, sel, pqCfg[kpair, any]{"K=struct,P=any(int|[]int)",
+			func(j int) kpair { return kpair{j, "x"} },
+			func(raw int) any {
+				if raw%3 == 0 {
+					return raw
+				}
+				return []int{raw, -raw}
+			},
+			anyRank, anyEq, nil})
 	}
 }
 
@@ -84,7 +166,7 @@ var posScripts = func() []posScript {
 
 // ---------------------------------------------------------------------------------------------
 
-type pqDriver[K comparable, P comparable] struct {
+type pqDriver[K comparable, P any] struct {
 	c     *vkit.Case
 	r     *vkit.Report
 	rnd   *vkit.Rand
@@ -186,11 +268,11 @@ func (d *pqDriver[K, P]) observe(after string) {
 			evals++
 			got := q.Priority(k)
 			if d.present[j] {
-				if want := d.cfg.priOf(d.pri[j]); got != want {
+				if want := d.cfg.priOf(d.pri[j]); !d.cfg.eq(got, want) {
 					sig, what = "pq-priority", fmt.Sprintf("Priority(%v) = %v after %s, the map has %v", k, got, after, want)
 					return
 				}
-			} else if got != d.zero {
+			} else if !d.cfg.eq(got, d.zero) {
 				sig, what = "pq-priority-absent", fmt.Sprintf("Priority(%v) = %v after %s for an absent key, want the zero value", k, got, after)
 				return
 			}
@@ -278,6 +360,7 @@ func (d *pqDriver[K, P]) update(j, raw int) {
 		i := d.sh.pos[j]
 		cls := posClass(i, n)
 		d.pri[j] = raw
+		d.loc.count("queue Update of a present key by types", d.cfg.name)
 		d.loc.op("PQ.Update-present-"+rel, n, cls, d.sh.updateAt(i, raw))
 	} else {
 		d.present[j], d.pri[j] = true, raw
@@ -492,7 +575,14 @@ func (d *pqDriver[K, P]) construct(list []opRec, nilSlice bool) bool {
 	}
 	ok := d.try(func() {
 		var q xheap.PriorityQueue[K, P]
-		if d.ctor == "less" {
+		if native := d.cfg.nativeCmp; native != nil && d.ord.name == "asc" {
+			d.loc.count("queue construction", "order given as the library function itself (bytes.Compare)")
+			if d.ctor == "less" {
+				q = xheap.NewPriorityQueue(func(a, b P) bool { return native(a, b) < 0 }, arg)
+			} else {
+				q = xheap.NewPriorityQueueCmp(native, arg)
+			}
+		} else if d.ctor == "less" {
 			q = xheap.NewPriorityQueue(func(a, b P) bool { return d.ord.less(d.cfg.rawOf(a), d.cfg.rawOf(b)) }, arg)
 		} else {
 			cmp := cmpFrom(d.ord.less)
@@ -548,7 +638,7 @@ func (d *pqDriver[K, P]) construct(list []opRec, nilSlice bool) bool {
 		}
 		which := -1
 		for idx, raw := range allowed[j] {
-			if d.cfg.priOf(raw) == got {
+			if d.cfg.eq(d.cfg.priOf(raw), got) {
 				which = idx
 				break
 			}
@@ -613,7 +703,7 @@ func (d *pqDriver[K, P]) drain() {
 	}
 }
 
-func runPQ[K comparable, P comparable](c *vkit.Case, s *posScript, sel int, cfg pqCfg[K, P]) {
+func runPQ[K comparable, P any](c *vkit.Case, s *posScript, sel int, cfg pqCfg[K, P]) {
 	r, rnd := c.R, c.Rand
 	d := &pqDriver[K, P]{c: c, r: r, rnd: rnd, loc: newLocal(), cfg: cfg, idxOf: map[K]int{}}
 	defer d.loc.flush(r)
